@@ -6,4 +6,5 @@ def main : IO UInt32 :=
   runDriver (fun family params lines =>
     match family with
     | "c02" => C02.check params lines
+    | "c02obs" => C02.checkObs params lines
     | _ => { bad := [s!"unknown family {family}"] })
